@@ -63,6 +63,19 @@ Theorem C13_prop_on_trees : forall b t rows,
 Proof. exact prop_on_trees. Qed.
 Print Assumptions C13_prop_on_trees.
 
+(* every row list that passes the specification's own test for "the relations of a tree whose repeated names are
+   leaves, in some order" (one root candidate, no ambiguous name, no repeated pair, non-empty names, every row
+   connected to the root) is accepted - no TreeError, no fuel exhaustion *)
+Theorem C13_presented_accepted : forall ad rows,
+  presents_tree rows = true -> exists t, rel_to_tree ad rows = Ret t.
+Proof. exact presents_tree_accepted. Qed.
+Print Assumptions C13_presented_accepted.
+
+(* hence the full predicate evaluated by the check holds of the model on EVERY input and flag *)
+Theorem C13_prop_rel : forall ad rows, prop_rel ad rows (out_of (rel_to_tree ad rows)) = true.
+Proof. exact prop_rel_model. Qed.
+Print Assumptions C13_prop_rel.
+
 (* ---------------------------------------------------------------------------------------------- *)
 (* nested dictionaries: nd_keys_ok = no dictionary repeats a key (true of every Python dict) *)
 
@@ -138,6 +151,10 @@ Proof.
   exists (rev (rows_of true ex_tree)). split; [apply Permutation_sym, Permutation_rev|].
   split; [vm_compute; discriminate|]. eexists. split; [vm_compute; reflexivity|discriminate].
 Qed.
+
+Example ex_presented : presents_tree (rev (rows_of true ex_tree)) = true
+                       /\ presents_tree (rows_of false (T None (s 97) [] [L 98 []; L 99 []])) = true.
+Proof. split; reflexivity. Qed.
 
 Example ex_no_root : the_root [(s 98, Some (s 97), []); (s 97, Some (s 98), [])] = None.
 Proof. reflexivity. Qed.
